@@ -1423,6 +1423,10 @@ func ruleODClear(c *Ctx, s *readFileShape) {
 		c.Bad(key, P.pos(s.codecRead.Pos()), "no typedmemclr of the target precedes codec.Read: a record would inherit field values from the previous one")
 		return
 	}
+	if okc, why := typedClear(P, s.memclr.Call.StaticCallee(), 0); !okc {
+		c.Unk(key, P.pos(s.memclr.Pos()), "the record target is cleared by something that is not known to clear all of it: "+why)
+		return
+	}
 	ok := dominatesInstr(s.memclr, s.codecRead) && s.memclr.Call.Args[1] == s.codecRead.Call.Args[1]
 	if s.records != nil {
 		ok = ok && s.records.Blocks[s.memclr.Block()] && oncePerIteration(s.fn, s.records.Loop, s.memclr)
